@@ -125,7 +125,7 @@ theorem rawNext_bwd {t : Tree K V} (hi : Inv cmp t) {c : Cursor K} {S : List (K 
 
 theorem drain_bwd {t : Tree K V} (hi : Inv cmp t) (stop : Option (CmpOp × K)) :
     ∀ (S : List (K × V)) (fuel : Nat) (c : Cursor K), Bwd t c S → S.length < fuel →
-      drain cmp t fuel { c := c, fwd := false, stop := stop, done := false } =
+      drainW cmp t fuel { c := c, fwd := false, stop := stop, done := false } =
         (S.takeWhile (keepOf cmp stop)).map outOf := by
   intro S
   induction S with
@@ -137,8 +137,8 @@ theorem drain_bwd {t : Tree K V} (hi : Inv cmp t) (stop : Option (CmpOp × K)) :
       have := rawNext_bwd hi hf
       simp only at this
       cases stop with
-      | none => simp [drain, iterNext, this]
-      | some s => obtain ⟨op, key⟩ := s; simp [drain, iterNext, this, whileChecksDone]
+      | none => simp [drainW, iterNextW, this]
+      | some s => obtain ⟨op, key⟩ := s; simp [drainW, iterNextW, this, whileChecksDone]
   | cons e S ih =>
     intro fuel c hf hl
     cases fuel with
@@ -148,16 +148,16 @@ theorem drain_bwd {t : Tree K V} (hi : Inv cmp t) (stop : Option (CmpOp × K)) :
       simp only [List.length_cons] at hl
       cases stop with
       | none =>
-        simp only [drain, iterNext, hr, List.takeWhile_cons, keepOf, if_true, List.map_cons, outOf]
+        simp only [drainW, iterNextW, hr, List.takeWhile_cons, keepOf, if_true, List.map_cons, outOf]
         rw [ih fuel c' hf' (by omega)]
       | some s =>
         obtain ⟨op, key⟩ := s
         by_cases hk : evalOp op (cmp e.1 key) = true
-        · simp only [drain, iterNext, whileChecksDone, Bool.false_eq_true, if_false, hr, whileStops, hk, Bool.not_true,
+        · simp only [drainW, iterNextW, whileChecksDone, Bool.false_eq_true, if_false, hr, whileStops, hk, Bool.not_true,
             List.takeWhile_cons, keepOf, if_true, List.map_cons, outOf]
           rw [ih fuel c' hf' (by omega)]
         · have hk' : evalOp op (cmp e.1 key) = false := by simpa using hk
-          simp [drain, iterNext, whileChecksDone, hr, whileStops, hk', keepOf]
+          simp [drainW, iterNextW, whileChecksDone, hr, whileStops, hk', keepOf]
 
 /-! ## the ideal reverse range -/
 
@@ -246,7 +246,7 @@ theorem rangeRev_refines (hc : StrictWeak cmp) {t : Tree K V} (hi : Inv cmp t) (
     refine ⟨{ c := doSeek cmp t sk (argKey arg lo hi'), fwd := false, stop := none, done := false },
       by simp only [rangeReverse, mkIter, hside, pickSide_lower, pickSide_upper, hlk', hfind, hss, hhk', hsf]; cases arg <;> rfl, ?_⟩
     intro fuel hf
-    rw [drain_bwd hi none _ fuel _ (hbwd lo) (hlen fuel hf), hrange]
+    rw [← drain_eq_while cmp t fuel (IterEq.refl _ (fun _ => rfl)), drain_bwd hi none _ fuel _ (hbwd lo) (hlen fuel hf), hrange]
     have := htw ((toList t.root).reverse.dropWhile (fun x => !belowHi cmp hi' x.1))
     simp only [Option.map_none] at this
     rw [this]
@@ -255,7 +255,7 @@ theorem rangeRev_refines (hc : StrictWeak cmp) {t : Tree K V} (hi : Inv cmp t) (
     refine ⟨{ c := doSeek cmp t sk (argKey arg lo hi'), fwd := false, stop := some (op, (pickSide s lo hi').key), done := false },
       by simp only [rangeReverse, mkIter, hside, pickSide_lower, pickSide_upper, hlk', hfind, hss, hhk', hsf]; cases arg <;> rfl, ?_⟩
     intro fuel hf
-    rw [drain_bwd hi (some (op, (pickSide s lo hi').key)) _ fuel _ (hbwd lo) (hlen fuel hf), hrange]
+    rw [← drain_eq_while cmp t fuel (IterEq.refl _ (fun _ => rfl)), drain_bwd hi (some (op, (pickSide s lo hi').key)) _ fuel _ (hbwd lo) (hlen fuel hf), hrange]
     have := htw ((toList t.root).reverse.dropWhile (fun x => !belowHi cmp hi' x.1))
     simp only [Option.map_some] at this
     rw [this]
